@@ -212,6 +212,11 @@ func (r *rwRT) ruleBranchCtx() {
 			chains = append(chains, []ctxKind{a, b})
 			for _, e := range ctxKinds {
 				chains = append(chains, []ctxKind{a, b, e})
+				if c.Tier == "thorough" {
+					for _, f := range ctxKinds {
+						chains = append(chains, []ctxKind{a, b, e, f})
+					}
+				}
 			}
 		}
 	}
